@@ -326,7 +326,9 @@ def check_C07(ctx):
     ctx.validate(ctx.run_driver(b, 'alias', shards=8, extra='funs=' + funs, tier='thorough', timeout=900))
     ctx.validate(ctx.run_driver(b, 'corners_all', shards=8, extra='funs=' + funs, timeout=900))      # the same functions on every corner-alphabet operand
     ctx.validate(ctx.run_driver(b, 'corners_z', shards=16, extra='funs=mpz_gcd:mpz_lcm', timeout=900))
-    trace_drivers(ctx, [('c07_mpz', 16, 1500), ('c07_mpn', 8, 900)], pure_drivers=['c07_mpz'])
+    # k3_*: the internal gcd-side kernels called directly against the contracts their sources state (SemK3.tla): hgcd2 (+jacobi), matrix22 products, hgcd / hgcd_appr /
+    # hgcd_jacobi / hgcd_step / gcd_subdiv_step, gcdext_1 / gcdext_lehmer_n / gcdext_hook, jacobi_base / jacobi_2 / jacobi_n; m1_hgcd2: the branch witnesses of the Hgcd2 model lifted to 64 bits
+    trace_drivers(ctx, [('c07_mpz', 16, 1500), ('c07_mpn', 8, 900), ('c07_jac2', 8, 900), ('k3_hgcd2', 8, 900), ('k3_matrix', 8, 900), ('k3_hgcd', 8, 1500), ('k3_gcdext', 4, 600), ('k3_jacobi', 8, 900), ('m1_hgcd2', 8, 600)], pure_drivers=['c07_mpz', 'k3_gcdext'])
     return ctx.finish('model_checking',
         rule='R2: GcdContract shows for every |a|,|b|<=M that exactly one cofactor pair satisfies the manual\'s gcdext contract and that the Kronecker oracle equals the definition. '
              'R3/R1: gcd/gcdext (3 forms)/lcm/invert/jacobi/kronecker variants on operand sizes on both sides of the Strassen/HGCD/GCDEXT_DC/GCD_DC crossovers x size differences x '
